@@ -697,28 +697,113 @@ func (ex *Exec) store(fr *Frame, st *State, p Val, v Val, t types.Type, pos toke
 
 func elemKey(t types.Type) string { return "E." + typeName(t) }
 
+// elemLeaves: the scalar leaves of a slice element type. A scalar element has
+// one leaf with an empty name (array E.<type>); a struct element has one
+// array per scalar field (E.<type>.<field>).
+func elemLeaves(elem types.Type) ([]leafT, bool) {
+	var ls []leafT
+	structLeaves(elem, nil, "", &ls)
+	for _, l := range ls {
+		if l.sort == "" {
+			return nil, false
+		}
+	}
+	return ls, len(ls) > 0
+}
+
+func elemLeafKey(elem types.Type, l leafT) string {
+	if l.name == "" {
+		return elemKey(elem)
+	}
+	return elemKey(elem) + "." + l.name
+}
+
+func hasPrefixPath(p, prefix []int) bool {
+	if len(p) < len(prefix) {
+		return false
+	}
+	for i := range prefix {
+		if p[i] != prefix[i] {
+			return false
+		}
+	}
+	return true
+}
+
+// buildFromLeaves assembles the value of type t at path from leaf values.
+func buildFromLeaves(t types.Type, path []int, get func(path []int) Val) Val {
+	if _, ok := scalarSort(t); ok {
+		return get(path)
+	}
+	if u, ok := t.Underlying().(*types.Struct); ok {
+		fs := make([]Val, u.NumFields())
+		for i := range fs {
+			fs[i] = buildFromLeaves(u.Field(i).Type(), append(append([]int{}, path...), i), get)
+		}
+		return StructV{Typ: t, F: fs}
+	}
+	return Opaque{"elem " + t.String()}
+}
+
+func pathKey(p []int) string { return fmt.Sprint(p) }
+
 func (ex *Exec) loadElem(st *State, p ElemPtr) Val {
-	s, ok := scalarSort(p.Elem)
+	ls, ok := elemLeaves(p.Elem)
 	if !ok {
 		ex.unsup("slice of non-scalar " + p.Elem.String())
 		return ex.freshVal(p.Elem, "elem")
 	}
-	E := ex.heapRead(st, elemKey(p.Elem), ArraySort(SInt, ArraySort(SInt, s)))
-	v := ex.sc.Name("elem", Select(Select(E, p.Arr), p.Idx))
-	ex.assumeLoaded(st, p.Elem, v)
-	return SV{v}
+	t, _ := typeAtPath(p.Elem, p.Path)
+	if t == nil {
+		return ex.freshVal(p.Elem, "elem")
+	}
+	vals := map[string]Val{}
+	for _, l := range ls {
+		if !hasPrefixPath(l.path, p.Path) {
+			continue
+		}
+		E := ex.heapRead(st, elemLeafKey(p.Elem, l), ArraySort(SInt, ArraySort(SInt, l.sort)))
+		v := ex.sc.Name("elem", Select(Select(E, p.Arr), p.Idx))
+		ex.assumeLoaded(st, l.typ, v)
+		vals[pathKey(l.path)] = SV{v}
+	}
+	return buildFromLeaves(t, append([]int{}, p.Path...), func(path []int) Val { return vals[pathKey(path)] })
+}
+
+func leafOf(v Val, rel []int) Val {
+	for _, i := range rel {
+		sv, ok := v.(StructV)
+		if !ok || i >= len(sv.F) {
+			return nil
+		}
+		v = sv.F[i]
+	}
+	return v
 }
 
 func (ex *Exec) storeElem(st *State, p ElemPtr, v Val) {
-	s, ok := scalarSort(p.Elem)
+	ls, ok := elemLeaves(p.Elem)
 	if !ok {
 		ex.unsup("slice of non-scalar " + p.Elem.String())
 		ex.havocAll(st, "exec.go:690")
 		return
 	}
-	key := elemKey(p.Elem)
-	E := ex.heapRead(st, key, ArraySort(SInt, ArraySort(SInt, s)))
-	ex.heapSet(st, key, Store(E, p.Arr, Store(Select(E, p.Arr), p.Idx, ex.term(v, s))))
+	for _, l := range ls {
+		if !hasPrefixPath(l.path, p.Path) {
+			continue
+		}
+		lv := leafOf(v, l.path[len(p.Path):])
+		key := elemLeafKey(p.Elem, l)
+		E := ex.heapRead(st, key, ArraySort(SInt, ArraySort(SInt, l.sort)))
+		var t Term
+		if lv == nil {
+			ex.unsup("store of a non-struct value into a struct element")
+			t = ex.sc.Fresh("elemst", l.sort)
+		} else {
+			t = ex.term(lv, l.sort)
+		}
+		ex.heapSet(st, key, Store(E, p.Arr, Store(Select(E, p.Arr), p.Idx, t)))
+	}
 }
 
 func globalKey(g *ssa.Global) string {
